@@ -26,7 +26,7 @@ ASSUMPTIONS = ["'same object' is compared on the public attributes of the parsed
                "bond order, token text, terminals, printed distribution, mixture masses)",
                "equal-seed generation is compared for 2 seeds per well-posed molecule, not for all seeds"]
 
-QUICK = {"bd": 1500, "tokens": 6000, "objects": 1200, "mols": 1200, "systems": 500, "gen": 200}
+QUICK = {"bd": 1500, "tokens": 6000, "objects": 1200, "mols": 1200, "systems": 500, "gen": 400}
 THOROUGH = {"bd": 20000, "tokens": 150000, "objects": 20000, "mols": 20000, "systems": 6000, "gen": 4000}
 
 _EXT = re.compile(r"\|[^|]*\|")
@@ -196,6 +196,14 @@ def roundtrip(acc, level, text, ctor, ast=None, gen=False, src="generated", sysm
             if r1[0] == "timeout" or r2[0] == "timeout":
                 acc.count("generation_timeout")
                 continue
+            # printing after generating still gives the canonical string
+            try:
+                after = str(obj)
+            except Exception as exc:  # noqa: BLE001
+                after = f"<raised {exc!r}>"
+            if after != c:
+                acc.violation("print_after_generate", f"str() of the object parsed from {text!r} changed after generate(): {c!r} -> {after!r}", case, sig, size=len(text))
+                break
             if r1 != r2:
                 acc.violation("same_molecule", f"seed {k}: P(s) generates {r1}, P(str(P(s))) generates {r2}\n s={text!r}\n c={c!r}", case, sig, size=len(text))
                 break
